@@ -467,6 +467,11 @@ def check_get_concentration(c, solute, units, result, exc):
         return
     if den == 'U':
         return
+    if den == 'L' and 0 < R.measure(c.contents, 'L') < 1e4 * cf.q:
+        # the denominator is read through get_volume('L'), which rounds to q litres: a container whose
+        # volume is within 1e4 quanta of zero is below the observer's documented resolution
+        M.count('OBS.below_resolution')
+        return
     M.count('OBS.get_concentration')
     exp = R.concentration(c.contents, solute, num, den)
     if exc is not None:
